@@ -179,8 +179,7 @@ void CoreSMTSolver::addVar_(Var v)
     if (v < nVars()) {
         // These are Necessary in incremental mode since previously
         // ignored vars can now reappear
-        decision[v] = true;
-        insertVarOrder(v);
+        setDecisionVar(v, true); // keeps dec_vars in step with decision[]
         return;
     }
     while (v >= nVars())
